@@ -51,7 +51,11 @@ type Shape struct {
 
 // Field is a struct field; its name is "F<position>".
 type Field struct {
-	S bool  `json:"s,omitempty"` // tagged `coerce:"secure"`
+	S bool `json:"s,omitempty"` // tagged `coerce:"secure"`
+	// I: tagged `coerce:"ignore"` (never together with S). The registry demands a tag on every field with a
+	// secret-looking name, so `ignore` on a container ("Credentials") with `secure` on leaves below it is how such
+	// types are written; the leaves below stay secret, whatever the tag of the container says about the container.
+	I bool  `json:"i,omitempty"`
 	T Shape `json:"t"`
 }
 
@@ -162,7 +166,16 @@ func genStruct(t *rapid.T, depth, allow, maxFields int) (Shape, int) {
 			secP = 5
 		}
 		sec := rapid.IntRange(0, 9).Draw(t, "secure") < secP
-		s.F = append(s.F, Field{S: sec, T: ft})
+		ign := false
+		if !sec {
+			// ignore tags mostly on containers (with secure-tagged leaves below them, by the secure draws further down)
+			ignP := 1
+			if !isLeafKind(ft.K) && ft.K != kRec {
+				ignP = 4
+			}
+			ign = rapid.IntRange(0, 9).Draw(t, "ignore") < ignP
+		}
+		s.F = append(s.F, Field{S: sec, I: ign, T: ft})
 	}
 	return s, used
 }
@@ -190,6 +203,9 @@ func validShape(s *Shape, depth int, inIface bool, leaves *int) error {
 			return fmt.Errorf("struct with %d fields", len(s.F))
 		}
 		for i := range s.F {
+			if s.F[i].S && s.F[i].I {
+				return fmt.Errorf("field tagged secure and ignore")
+			}
 			if err := validShape(&s.F[i].T, depth+1, false, leaves); err != nil {
 				return err
 			}
@@ -236,6 +252,8 @@ func typeOf(s *Shape) reflect.Type {
 			fs[i] = reflect.StructField{Name: "F" + strconv.Itoa(i), Type: typeOf(&s.F[i].T)}
 			if s.F[i].S {
 				fs[i].Tag = `coerce:"secure"`
+			} else if s.F[i].I {
+				fs[i].Tag = `coerce:"ignore"`
 			}
 		}
 		return reflect.StructOf(fs)
@@ -285,6 +303,12 @@ type Canary struct {
 	Behind bool
 	// Carrier is the index of the carrier (request/response) the canary was planted in.
 	Carrier int
+	// IgnoreAbove lists the kinds of the ignore-tagged fields above the canary (above the secure-tagged field for a
+	// secret one), outermost first, e.g. "map" or "struct>slice". Empty when no ignore tag lies above it.
+	IgnoreAbove string
+	// Ignored: a non-secret canary in or below an ignore-tagged field. Whether "untagged data ... left intact" covers
+	// data tagged ignore is not settled by the statement, so its presence is not asserted.
+	Ignored bool
 }
 
 func (c Canary) str() string {
@@ -344,6 +368,8 @@ type pathInfo struct {
 	frozenPath   string
 	frozenDepth  int
 	frozenBehind bool
+	// ignoreAbove: kinds of the ignore-tagged fields passed so far (frozen with the secure-tagged field)
+	ignoreAbove []string
 }
 
 func (p pathInfo) push(k string) pathInfo {
@@ -368,7 +394,9 @@ func (b *valueBuilder) plant(kind byte, p pathInfo) Canary {
 		c.Path, c.Depth, c.Behind = p.frozenPath, p.frozenDepth, p.frozenBehind
 	} else {
 		c.Path, c.Depth, c.Behind = strings.Join(p.kinds, ">"), len(p.kinds)-1, behind(p.kinds)
+		c.Ignored = len(p.ignoreAbove) > 0
 	}
+	c.IgnoreAbove = strings.Join(p.ignoreAbove, ">")
 	b.canaries = append(b.canaries, c)
 	return c
 }
@@ -386,6 +414,10 @@ func (b *valueBuilder) value(s *Shape, p pathInfo) reflect.Value {
 				// "everything beneath a secure-tagged field is secret"
 				q.secret = true
 				q.frozenPath, q.frozenDepth, q.frozenBehind = strings.Join(q.kinds, ">"), len(q.kinds)-1, behind(q.kinds)
+			}
+			if f.I && !q.secret {
+				// an ignore tag says something about this field only: a secure-tagged field below it stays secret
+				q.ignoreAbove = append(append([]string(nil), q.ignoreAbove...), f.T.K)
 			}
 			v.Field(i).Set(b.value(&f.T, q))
 		}
@@ -450,6 +482,16 @@ var hardEdges = map[string]bool{
 // pathClass maps "struct>slice>iface>struct>string" to "slice>iface"; paths without such a construct are "plain";
 // paths through a value of the recursive family are "recursive-type".
 func joinKinds(ks []string) string { return strings.Join(ks, ">") }
+
+// classOf is the structural class of a canary for a rule signature: pathClass, and for otherwise plain paths
+// "below-ignore-tagged-field" when an ignore-tagged field lies above the (secure-tagged field of the) canary.
+func classOf(c Canary) string {
+	cls := pathClass(c.Path)
+	if cls == "plain" && c.IgnoreAbove != "" {
+		return "below-ignore-tagged-field"
+	}
+	return cls
+}
 
 func pathClass(path string) string {
 	ks := strings.Split(path, ">")
